@@ -4,6 +4,7 @@
 #define _GNU_SOURCE
 #include "rdchk.h"
 #include <fcntl.h>
+#include <sys/stat.h>
 #include <sys/resource.h>
 #include <sys/wait.h>
 #include <signal.h>
@@ -32,7 +33,11 @@ static void trunc_section(const char* path, const char* exempt, long stride, con
             if (rd) { snprintf(key, sizeof key, "truncation:prefix-opens-as-valid-file:%s:%s", IO_NAME[mode], (cut >= 4 && !memcmp(orig + cut - 4, "PAR1", 4)) ? "prefix-ends-in-PAR1" : region);
                 v_viol(key, "%s cut=%ld of %zu: rows=%lld groups=%d columns=%d", bn, cut, n, (long long)carquet_reader_num_rows(rd), carquet_reader_num_row_groups(rd), carquet_reader_num_columns(rd)); carquet_reader_close(rd); }
             else { if (err.code == CARQUET_OK) { snprintf(key, sizeof key, "truncation:failure-with-OK-error-code:%s", IO_NAME[mode]); v_viol(key, "%s cut=%ld", bn, cut); } v_count("prefixes_rejected"); }
-            free(pre); } }
+            free(pre); }
+        /* the error argument is optional: the same prefixes with error == NULL (every short prefix, every 5th other one) */
+        if (cut <= 16 || cut % 5 == 0) for (int mode = 0; mode < 3; mode++) { carquet_reader_options_init(&ro); ro.use_mmap = mode == IO_MMAP; carquet_reader_t* rd; uint8_t* pre = NULL;
+            if (mode == IO_BUFFER) { pre = v_exact_copy(orig, (size_t)cut); rd = carquet_reader_open_buffer(pre, (size_t)cut, &ro, NULL); } else rd = carquet_reader_open(tmp, &ro, NULL);
+            v_count("prefixes_opened_without_error_struct"); if (rd) { snprintf(key, sizeof key, "truncation:prefix-opens-as-valid-file:%s:no-error-struct", IO_NAME[mode]); v_viol(key, "%s cut=%ld of %zu", bn, cut, n); carquet_reader_close(rd); } free(pre); } }
     unlink(tmp); free(ok); free(orig);
 }
 
@@ -97,6 +102,9 @@ static void sink_section(int scale, const char* tmpdir) {
           for (int stop = 0; stop <= nb; stop++) { int fd0 = count_fds(); int r = abort_after(t, path, stop); if (r < 0) continue; v_case(v_hash(&stop, sizeof stop, (uint64_t)ti * 31 + 9)); v_count("aborts");
               if (r == 1) { v_viol("abort:file-left-behind", "table=%d after %d batches", ti, stop); unlink(path); }
               int fd1 = count_fds(); if (fd0 >= 0 && fd1 != fd0) v_viol("abort:descriptor-leaked", "table=%d after %d batches: %d -> %d open descriptors", ti, stop, fd0, fd1); }
+          /* the same with an output path longer than 255 characters (two 200-character directories): what abort removes must be the file it created */
+          { char longp[900]; char d1[300], d2[600]; memset(d1, 0, sizeof d1); memset(d2, 0, sizeof d2); snprintf(d1, sizeof d1, "%s/", tmpdir); size_t l1 = strlen(d1); memset(d1 + l1, 'a', 200); mkdir(d1, 0777); snprintf(d2, sizeof d2, "%s/", d1); size_t l2 = strlen(d2); memset(d2 + l2, 'b', 200); mkdir(d2, 0777); snprintf(longp, sizeof longp, "%s/long.parquet", d2);
+            for (int stop = 0; stop <= nb; stop += (nb > 4 ? nb / 2 : 1)) { int r = abort_after(t, longp, stop); if (r < 0) continue; v_count("aborts_with_path_over_255_chars"); if (r == 1) { v_viol("abort:file-left-behind:long-path", "table=%d after %d batches, path of %zu characters", ti, stop, strlen(longp)); unlink(longp); } } rmdir(d2); rmdir(d1); }
           /* (iv) abort while the sink is failing: buffered bytes cannot be flushed (file size limit) or the close itself fails; the file must go all the same */
           static const int stops_sel[3] = {0, 1, -1}; long lims[5] = {0, 3, 16, (long)ref.n / 2, (long)ref.n > 9 ? (long)ref.n - 9 : 1};
           for (int si = 0; si < 3; si++) for (int li = 0; li < 5; li++) { int stop = stops_sel[si] < 0 ? nb : stops_sel[si]; if (stop > nb) continue; fflush(stdout); pid_t pid = fork();
